@@ -32,27 +32,33 @@ import Glom.Py.Access
 namespace Glom.C14
 open Glom
 
+/-- `reg`: the class was registered by the user (on the `Glommer` the case runs with) with an
+    `iterate` handler of its own — `"rev"`: the items in reverse order, `"off"`: `iterate=False`
+    (not iterable for glom); `""`: not registered, the default registry's handlers apply.
+    `register(cls, iterate=…)` also fills in the other ops for exactly that class: `get` becomes
+    `getattr` (the `_op_auto_map` default), `keys` stays unregistered for it. -/
 structure ClsInfo where
   mro : List String
   hasDict : Bool
   iterable : Bool
+  reg : String := ""
   deriving Repr, DecidableEq
 
 abbrev Classes := List (String × ClsInfo)
 
 def builtinClasses : Classes :=
-  [("object", ⟨["object"], false, false⟩), ("dict", ⟨["dict", "object"], false, true⟩),
-   ("OrderedDict", ⟨["OrderedDict", "dict", "object"], true, true⟩),
-   ("list", ⟨["list", "object"], false, true⟩), ("tuple", ⟨["tuple", "object"], false, true⟩),
-   ("set", ⟨["set", "object"], false, true⟩), ("frozenset", ⟨["frozenset", "object"], false, true⟩),
-   ("str", ⟨["str", "object"], false, false⟩), ("int", ⟨["int", "object"], false, false⟩),
-   ("bool", ⟨["bool", "int", "object"], false, false⟩), ("float", ⟨["float", "object"], false, false⟩),
-   ("NoneType", ⟨["NoneType", "object"], false, false⟩)]
+  [("object", ⟨["object"], false, false, ""⟩), ("dict", ⟨["dict", "object"], false, true, ""⟩),
+   ("OrderedDict", ⟨["OrderedDict", "dict", "object"], true, true, ""⟩),
+   ("list", ⟨["list", "object"], false, true, ""⟩), ("tuple", ⟨["tuple", "object"], false, true, ""⟩),
+   ("set", ⟨["set", "object"], false, true, ""⟩), ("frozenset", ⟨["frozenset", "object"], false, true, ""⟩),
+   ("str", ⟨["str", "object"], false, false, ""⟩), ("int", ⟨["int", "object"], false, false, ""⟩),
+   ("bool", ⟨["bool", "int", "object"], false, false, ""⟩), ("float", ⟨["float", "object"], false, false, ""⟩),
+   ("NoneType", ⟨["NoneType", "object"], false, false, ""⟩)]
 
 def clsInfo (cs : Classes) (c : String) : ClsInfo :=
   match (cs ++ builtinClasses).find? (·.1 == c) with
   | some (_, i) => i
-  | none => ⟨[c, "object"], false, false⟩
+  | none => ⟨[c, "object"], false, false, ""⟩
 
 /-! ### the default registry's handlers (environment; C13's subject) -/
 
@@ -70,13 +76,16 @@ def keysH (cs : Classes) (c : String) : Option KeysH :=
 
 /-- `get_handler('get', item)` -/
 def getH (cs : Classes) (c : String) : GetH :=
-  if isA cs c "dict" then .getitem
+  if (clsInfo cs c).reg != "" then .getattr     -- a user registration without `get=`: the auto default
+  else if isA cs c "dict" then .getitem
   else if isA cs c "list" || isA cs c "tuple" then .seqItem
   else .getattr
 
 /-- `get_handler('iterate', item)` is `iter` (else UnregisteredTarget) -/
 def iterH (cs : Classes) (c : String) : Bool :=
-  isA cs c "dict" || isA cs c "list" || isA cs c "tuple" || (clsInfo cs c).iterable
+  if (clsInfo cs c).reg == "off" then false      -- registered with `iterate=False`
+  else if (clsInfo cs c).reg == "rev" then true  -- registered with an `iterate` handler of its own
+  else isA cs c "dict" || isA cs c "list" || isA cs c "tuple" || (clsInfo cs c).iterable
 
 /-! ### element access, including the harness's raising containers
 
@@ -113,8 +122,10 @@ def iterItems (cs : Classes) (h : Heap) (item : Val) : List Val :=
   | .ref a =>
     match h[a]? with
     | some (.list c xs) =>
-      if isA cs c "RList" then xs.takeWhile (fun v => v != Val.str "boom") else xs
-    | some (.tuple _ xs) | some (.set _ xs) => xs
+      if (clsInfo cs c).reg == "rev" then xs.reverse          -- the user's `iterate` handler
+      else if isA cs c "RList" then xs.takeWhile (fun v => v != Val.str "boom") else xs
+    | some (.tuple c xs) => if (clsInfo cs c).reg == "rev" then xs.reverse else xs
+    | some (.set _ xs) => xs
     | some (.dict _ es) => es.map (·.1)
     | _ => []
   | _ => []
@@ -137,6 +148,47 @@ def extendChildren (cs : Classes) (h : Heap) (item : Val) : List Val :=
         match applyGet cs h (getH cs c) item key with
         | .ok v => some v
         | .error _ => none)                   -- `except Exception: pass`
+
+/-! ### `_extend_children` for any registry
+
+  What `_extend_children` needs of the registry in the scope is what `get_handler` answers for the
+  item: the `keys` handler (or UnregisteredTarget) and what it yields, the `get` handler, the `iterate`
+  handler (or UnregisteredTarget / `False`) and what it yields.  `Handlers` holds these answers as
+  functions of the item — any registry, with any user-registered container types, is an instance. -/
+
+structure Handlers where
+  /-- `get_handler('keys', item)`: `none` = UnregisteredTarget, else the keys `keys(item)` yields
+      (before it ends or raises) -/
+  keys : Val → Option (List Val)
+  /-- `keys is _ObjStyleKeys.get_keys` -/
+  objStyle : Val → Bool
+  /-- `isinstance(item, (list, tuple, set, frozenset))` -/
+  isSeq : Val → Bool
+  /-- `get_handler('get', item)(item, key)` -/
+  get : Val → Val → Except PyExc Val
+  /-- `get_handler('iterate', item)`: `none` = UnregisteredTarget, else the items `iterate(item)`
+      produces before it ends or raises -/
+  iterate : Val → Option (List Val)
+
+/-- `_extend_children(children, item, get_handler)` for the registry answering like `H` -/
+def extendChildrenH (H : Handlers) (item : Val) : List Val :=
+  let viaIterate := (H.iterate item).getD []
+  match H.keys item with
+  | none => viaIterate
+  | some ks =>
+    if H.objStyle item && H.isSeq item then viaIterate
+    else ks.filterMap (fun key =>
+      match H.get item key with
+      | .ok v => some v
+      | .error _ => none)
+
+/-- the default registry (and the user registrations recorded in the class table) on the heap `h` -/
+def defaultHandlers (cs : Classes) (h : Heap) : Handlers where
+  keys item := (keysH cs (item.clsName h)).map (fun k => keysOf h k item)
+  objStyle item := keysH cs (item.clsName h) == some .objKeys
+  isSeq item := seqGuard.any (isA cs (item.clsName h))
+  get item key := applyGet cs h (getH cs (item.clsName h)) item key
+  iterate item := if iterH cs (item.clsName h) then some (iterItems cs h item) else none
 
 /-- the `'x'` branch: `nxt` -/
 def starItems (cs : Classes) (h : Heap) (cur : Val) : List Val := extendChildren cs h cur
@@ -192,34 +244,64 @@ theorem unseen_lt (h : Heap) (sofar : List Nat) (a : Nat) (ha : a < h.length)
   · rw [hs]; rfl
   · simp
 
-/-- the `for item in nxt:` loop of the `'X'` branch.  `nxt` grows while index `i` walks it;
-    `sofar` is the set of `id()`s already expanded.  Returns the final `nxt` and, for the
-    theorems, the addresses that were expanded, in order. -/
-def ssLoop (cs : Classes) (h : Heap) (nxt : List Val) (i : Nat) (sofar : List Nat)
+/-- addresses below `n` that are not in `sofar` yet -/
+def unseenN (n : Nat) (sofar : List Nat) : Nat :=
+  ((List.range n).filter (fun a => !sofar.contains a)).length
+
+theorem unseenN_lt (n : Nat) (sofar : List Nat) (a : Nat) (ha : a < n)
+    (hs : sofar.contains a = false) : unseenN n (a :: sofar) < unseenN n sofar := by
+  unfold unseenN
+  apply filter_length_lt (a := a)
+  · intro x hx
+    simp only [List.contains_cons, Bool.not_eq_true', Bool.or_eq_false_iff] at hx
+    rw [hx.2]; rfl
+  · exact List.mem_range.2 ha
+  · rw [hs]; rfl
+  · simp
+
+/-- the `for item in nxt:` loop of the `'X'` branch, for **any** enumeration `expand` of the children
+    of an item (whatever `keys` / `get` / `iterate` handlers the registry holds) over `n` addresses.
+    `nxt` grows while index `i` walks it; `sofar` is the set of `id()`s already expanded.  Returns
+    the final `nxt` and, for the theorems, the addresses that were expanded, in order. -/
+def ssLoopG (n : Nat) (expand : Val → List Val) (nxt : List Val) (i : Nat) (sofar : List Nat)
     (expanded : List Nat) : List Val × List Nat :=
   if hi : i < nxt.length then
     match hitem : nxt[i] with
     | .ref a =>
-      if hs : sofar.contains a then ssLoop cs h nxt (i + 1) sofar expanded
+      if hs : sofar.contains a then ssLoopG n expand nxt (i + 1) sofar expanded
       else
-        if ha : a < h.length then
+        if ha : a < n then
           -- sofar.add(id(item)); _extend_children(nxt, item, get_handler)
-          ssLoop cs h (nxt ++ extendChildren cs h (.ref a)) (i + 1) (a :: sofar) (expanded ++ [a])
+          ssLoopG n expand (nxt ++ expand (.ref a)) (i + 1) (a :: sofar) (expanded ++ [a])
         else
           -- not a heap object: nothing to append
-          ssLoop cs h nxt (i + 1) sofar expanded
+          ssLoopG n expand nxt (i + 1) sofar expanded
     | _ =>
       -- an immediate value (None, bool, int, str, …): `_extend_children` appends nothing;
       -- its id() never collides with a container's
-      ssLoop cs h nxt (i + 1) sofar expanded
+      ssLoopG n expand nxt (i + 1) sofar expanded
   else (nxt, expanded)
-termination_by (unseen h sofar, nxt.length - i)
+termination_by (unseenN n sofar, nxt.length - i)
 decreasing_by
   all_goals simp_wf
   · exact Prod.Lex.right _ (by omega)
-  · exact Prod.Lex.left _ _ (unseen_lt h sofar a ha (by simpa using hs))
+  · exact Prod.Lex.left _ _ (unseenN_lt n sofar a ha (by simpa using hs))
   · exact Prod.Lex.right _ (by omega)
   · exact Prod.Lex.right _ (by omega)
+
+/-- the loop with the default registry's `_extend_children` on the heap `h` -/
+def ssLoop (cs : Classes) (h : Heap) (nxt : List Val) (i : Nat) (sofar : List Nat)
+    (expanded : List Nat) : List Val × List Nat :=
+  ssLoopG h.length (extendChildren cs h) nxt i sofar expanded
+
+/-- the `'X'` branch for any enumeration: `sofar = {id(cur)}`, expand `cur`, run the loop,
+    `nxt.insert(0, cur)` -/
+def starstarItemsG (n : Nat) (expand : Val → List Val) (cur : Val) : List Val × List Nat :=
+  let seed : List Nat := match cur with
+    | .ref a => [a]
+    | _ => []
+  let r := ssLoopG n expand (expand cur) 0 seed seed
+  (cur :: r.1, r.2)
 
 /-- the `'X'` branch: `sofar = {id(cur)}`, expand `cur`, run the loop, `nxt.insert(0, cur)` -/
 def starstarItems (cs : Classes) (h : Heap) (cur : Val) : List Val × List Nat :=
